@@ -159,6 +159,10 @@ def check(ctx):
     if napp != 1:
         o4.fail(P, 'ResourceManager.reserve_resources_with_callback', 'self._waiting_requests.append((copy.deepcopy(request), callback))', f'expected one registration site, found {napp}',
                 file=RM.mod.path, line=RM.node.lineno)
+    o5 = Ob('C10.5', 'K1', 'the availability check (scheduled under the shared id -1) is never paused or cancelled: every pause/unpause/cancel call is made by an asset for its own id')
+    obs.append(o5)
+    from .c07 import own_id_only
+    own_id_only(ctx, o5)
     return obs
 
 
